@@ -277,7 +277,9 @@ def install_points(which="stop"):
                               N._check_timers: r"send_dwr|PEER_READY_STATES"})
     if which == "start":
         # start() against the I/O loop it has just started: the loop's walk over its socket table, and the table insertions
-        return sched.install({N.start: r"_connect_to_peer|for peer",
+        extra = {N._open_peer_connection: r"connect\(|socket not yet ready|host_ip_address|PEER_CONNECTED|send_cer|demand_attention"} \
+            if hasattr(N, "_open_peer_connection") else {}
+        return sched.install({N.start: r"_connect_to_peer|for peer", **extra,
                               N._add_peer_connection: r"peer_sockets\[|socket_peers\[|self\.connections\[",
                               N._handle_connections: r"peer_sockets\.items|self\.connections\.get|_list\.append"})
     # preemption at the lines of the reconnect pass, of stop(), of the dial and of the registration of the new connection
@@ -386,17 +388,29 @@ def dpr_vs_watchdog(decisions):
         w.close()
 
 
-def start_race(decisions, npeers=2):
+def start_race(decisions, npeers=2, dial="ok"):
     """Node.start() starts the connection thread and then dials the persistent peers from the caller's thread.
     One schedule; every persistent peer must have been dialled and sent its CER, and no thread may have died."""
     from dv import sched
     w = W.NodeWorld({"peers": [{"name": f"peer{i + 1}.example", "ip": [f"10.1.1.{i + 1}"], "persistent": True, "reconnect_wait": 1000}
                                for i in range(npeers)],
                      "apps": [{"app_id": 4, "auth": True, "peers": list(range(npeers)), "handler": "answer"}],
-                     "node_timers": {"idle": 1000, "dwa": 10, "cer": 30, "cea": 30, "wakeup": 1}, "default_dial": "ok"})
+                     "node_timers": {"idle": 1000, "dwa": 10, "cer": 30, "cea": 30, "wakeup": 1}, "default_dial": dial})
     try:
         ex = sched.Explorer(decisions)
         sched.attach(w.k, ex)
+        if dial == "inprogress":
+            # the TCP handshake of each dial completes as soon as the network gets to it - possibly while the dialling
+            # thread is still inside the function that opened the socket
+            def network():
+                done = 0
+                while done < npeers:
+                    w.k.block(lambda: len(w.net.dialed) > done, timeout=50)
+                    if len(w.net.dialed) <= done:
+                        return
+                    w.net.dialed[done].complete_connect(True)
+                    done += 1
+            w.k.spawn(network, name="network")
         ex.armed = True
         w.start(on_thread=True)
         ex.armed = False
@@ -410,8 +424,13 @@ def start_race(decisions, npeers=2):
         if dialled != {f"10.1.1.{i + 1}" for i in range(npeers)}:
             problems.append(("not-dialled", f"persistent peers dialled at start: {sorted(dialled)}"))
         for c in w.conns:
-            if not [f for f in c.refresh() if f.code == W.CMD_CE and f.is_request]:
+            cers = [f for f in c.refresh() if f.code == W.CMD_CE and f.is_request]
+            if not cers:
                 problems.append(("no-cer", f"connection {c.idx} was dialled but no CER was sent within 1 s"))
+            elif len(cers) > 1:
+                problems.append(("cer-sent-twice", f"connection {c.idx}: {len(cers)} CERs written ({[f.brief() for f in c.out]})"))
+            if cers and cers[0].avp(257) is None:
+                problems.append(("cer-without-host-ip-address", f"connection {c.idx}: the CER carries no Host-IP-Address (required, RFC 6733 5.3.1)"))
         return ex.trace, problems
     finally:
         w.close()
@@ -423,21 +442,21 @@ def schedule_part(rec, shard, nshards, thorough):
     info = install_points("start")
     if shard == 0:
         rec.extra["preemption_functions_start"] = info
-    for npeers in (2, 3):
+    for npeers, dial in ((2, "ok"), (3, "ok"), (1, "inprogress")):
         holder_s = {}
 
-        def run_start(dec, npeers=npeers):
-            tr, problems = start_race(dec, npeers)
+        def run_start(dec, npeers=npeers, dial=dial):
+            tr, problems = start_race(dec, npeers, dial)
             holder_s["last"] = problems
             return tr
         ns = 0
-        for dec, trace in sched.enumerate_schedules(run_start, (5 if thorough else 4) - npeers, shard, nshards):
-            case = {"start_race": npeers, "schedule": {str(i): c for i, c in sorted(dec.items())}}
+        for dec, trace in sched.enumerate_schedules(run_start, (5 if thorough else 4) - max(npeers, 2), shard, nshards):
+            case = {"start_race": npeers, "dial": dial, "schedule": {str(i): c for i, c in sorted(dec.items())}}
             for kind, detail in holder_s["last"]:
                 rec.violation(f"C12/start-race/{kind}", case, detail)
             ns += 1
-            rec.case(fp("start", npeers, tuple(sorted(dec.items()))) if dec else None,
-                     ["start-race-schedule", f"deviations:{len(dec)}"], sample=lambda: dict(case, choice_points=len(trace)))
+            rec.case(fp("start", npeers, dial, tuple(sorted(dec.items()))) if dec else None,
+                     ["start-race-schedule", f"start-race:dial-{dial}", f"deviations:{len(dec)}"], sample=lambda: dict(case, choice_points=len(trace)))
         rec.extra["start_race_schedules"] = rec.extra.get("start_race_schedules", 0) + ns
     info = install_points("dpr")
     if shard == 0:
@@ -649,7 +668,7 @@ def run(tier, scale=1.0):
     rec = Recorder(PID)
     for d in hyp.pool_run(shard_main, (tier, scale)):
         rec.merge(d)
-    required = {"dpr-vs-watchdog-schedule": 1, "dpr-vs-watchdog:dwr-sent:1": 1, "start-race-schedule": 1, "other-peer-busy": 1, "second-connection-by-the-peer": 1, "identity:respelled": 1, "stop-race-schedule": 1, "persistent:True": 1, "persistent:False": 1, "always:True": 1, "addr:False": 1, "losses:2": 1,
+    required = {"start-race:dial-inprogress": 1, "dpr-vs-watchdog-schedule": 1, "dpr-vs-watchdog:dwr-sent:1": 1, "start-race-schedule": 1, "other-peer-busy": 1, "second-connection-by-the-peer": 1, "identity:respelled": 1, "stop-race-schedule": 1, "persistent:True": 1, "persistent:False": 1, "always:True": 1, "addr:False": 1, "losses:2": 1,
                 "dpr-on-ready": 1, "dwa-event": 1, "dwr-outstanding-at-dpr": 1, "reason-dpr": 1, "dials:3": 1, "loss:sync-refused": 1, "loss:cea-timeout": 1}
     return finish(rec, tier=tier, level="exploration", rule=RULE, assumptions=ASSUME, t0=t0,
                   required_classes=required)
@@ -668,7 +687,7 @@ def replay(doc):
         return 0
     if doc["case"].get("start_race"):
         install_points("start")
-        _, problems = start_race({int(i): c for i, c in doc["case"]["schedule"].items()}, doc["case"]["start_race"])
+        _, problems = start_race({int(i): c for i, c in doc["case"]["schedule"].items()}, doc["case"]["start_race"], doc["case"].get("dial", "ok"))
         sigs = [f"C12/start-race/{k}" for k, _ in problems]
         if doc["signature"] in sigs:
             print(f"  replayed: {problems[0][1][:300]}")
